@@ -102,6 +102,9 @@ type Op struct {
 	EmptyTables []string `json:"emptytables,omitempty"`
 	// CondSet: send ConditionExpression even when Cond is empty or blank (a pointer to that text, not nil)
 	CondSet bool `json:"condset,omitempty"`
+	// FilterSet / ProjSet: send FilterExpression / ProjectionExpression even when the text is empty
+	FilterSet bool `json:"filterset,omitempty"`
+	ProjSet   bool `json:"projset,omitempty"`
 	// DoneCtx: make the call with a context that is already done ("cancelled", "expired")
 	DoneCtx string `json:"donectx,omitempty"`
 	// Scan as one worker of a parallel scan: TotalSegments > 0 sends Segment and TotalSegments
@@ -287,6 +290,14 @@ func (op Op) String() string {
 		return fmt.Sprintf("%#v", op)
 	}
 	return string(b)
+}
+
+// strpSet is the pointer to an optional expression text: nil for an empty one unless set asks for the text itself
+func strpSet(s string, set bool) *string {
+	if s == "" && !set {
+		return nil
+	}
+	return &s
 }
 
 // condExpr is the ConditionExpression pointer of a write: nil for "no condition" unless CondSet asks for the
